@@ -51,6 +51,12 @@ TEXT = {
             "structurally (upper coordinates, partition elements, payloads, active ranges), tensor level as content per "
             "fiber of the rank plus active ranges; operand immutability.",
             "Compressed ranks only; re-split only of absolute-coordinate partitions; steps/sizes >= 1."),
+    "C09": ("Hypothesis PBT: content image under the stated coordinate map, inverse compositions (metamorphic)",
+            "Generated tensors of depth 2-4 (explicit defaults, empty sub-fibers, estimated and authoritative shapes, every "
+            "route) under swizzle / swap / flatten (tuple, pair, linear, multi-level) / merge (absolute, relative; sum, max, "
+            "first) / flatten-unflatten / split-then-absolute-flatten; result content compared with the model image, "
+            "inverse compositions restore content, rank ids and ==; results well-formed and rank-consistent; operand intact.",
+            "Shapes<=4 per rank, <=10 points; linear flattening only with authoritative shapes."),
     "C11": ("Exhaustive operator matrix + Hypothesis PBT on fiber pairs vs Python operators on the unboxed values",
             "All 131 cells of the operator x operand-kind matrix enumerated with a fixed value table and sampled with drawn "
             "ints / dyadic floats; result value and type, operand immutability, same-box identity for in-place forms; "
